@@ -35,22 +35,26 @@ def showSpec (s : AssetSpec) : String :=
 def showBinary (b : AssetBinary) : String :=
   "/".intercalate (toString b.flags :: b.specs.map showSpec)
 
-def binaryOf (c : List String) : Option AssetBinary :=
+/-- `asset <flags> specs…` (through `AssetBinary::serialize`, little-endian) or
+`asset-hand LE|BE <flags> specs…` (through the per-record API on an archive of that byte order). -/
+def binaryOf (c : List String) : Option (Endian × AssetBinary) :=
   match c with
-  | _ :: "asset" :: fl :: specs => some ⟨fl.toNat?.getD 0, specs.map specOf⟩
+  | _ :: "asset" :: fl :: specs => some (.little, ⟨fl.toNat?.getD 0, specs.map specOf⟩)
+  | _ :: "asset-hand" :: "LE" :: fl :: specs => some (.little, ⟨fl.toNat?.getD 0, specs.map specOf⟩)
+  | _ :: "asset-hand" :: "BE" :: fl :: specs => some (.big, ⟨fl.toNat?.getD 0, specs.map specOf⟩)
   | _ => none
 
-def modelOut (b : AssetBinary) : String :=
-  match serialize sjisSub b with
+def modelOut (e : Endian) (b : AssetBinary) : String :=
+  match serializeE sjisSub e b with
   | .panic => "panic"
   | .err _ => "err"
   | .ok bytes =>
-    match BinArchive.parse sjisSub .little bytes with
+    match BinArchive.parse sjisSub e bytes with
     | .ok a =>
       let head := "ok " ++ toString a.size ++ " " ++ hexOfBytes bytes
       match fromArchive a with
       | .ok b' =>
-        let re := match serialize sjisSub b' with
+        let re := match serializeE sjisSub e b' with
           | .ok b2 => if b2 = bytes then "same" else hexOfBytes b2
           | .err _ => "err"
           | .panic => "panic"
@@ -111,7 +115,7 @@ def recordsCheck : Nat → List AssetSpec → List (List Nat) → Option String
   | _, [], [] => none
   | _, _, _ => some "length: record count"
 
-def oracle (b : AssetBinary) (i : List String) : String :=
+def oracle (e : Endian) (b : AssetBinary) (i : List String) : String :=
   if !shapeOk b then "ok skip out-of-domain" else
   if lossy b then "ok skip lossy-codepoint" else
   -- a string the codec cannot represent: refusing to serialise is fine; but whatever `serialize`
@@ -124,7 +128,7 @@ def oracle (b : AssetBinary) (i : List String) : String :=
     let norm : AssetBinary := ⟨b.flags, b.specs.map (fun s => { s with vals := Spec.Asset.normalizeVals s.vals })⟩
     if size != toString expect then
       "FAIL length: data section is " ++ size ++ " bytes, the formula gives " ++ toString expect
-    else if ofLe ((img.drop 4).take 4) != expect then
+    else if e.dec ((img.drop 4).take 4) != expect then
       "FAIL length: header data-size word differs from the formula " ++ toString expect
     else
       let data := (img.drop 0x20).take expect
@@ -138,6 +142,8 @@ def oracle (b : AssetBinary) (i : List String) : String :=
             if value != showBinary norm then "FAIL roundtrip: re-read value differs from the input"
             else if re != "same" then "FAIL idempotent: re-serialising the re-read value gives other bytes"
             else "ok"
+  | _ :: "ok" :: _ :: _ :: "rr-diff" :: _ =>
+    "FAIL roundtrip: from_archive and record-by-record from_stream return different values"
   | _ :: "panic" :: _ => "FAIL panic"
   | _ :: "err" :: _ => "FAIL serialize failed"
   | _ => "FAIL roundtrip: the serialised file could not be re-read"
@@ -147,10 +153,10 @@ def family : Family where
   init := ()
   step := fun _ c i =>
     match binaryOf c with
-    | some b =>
+    | some (e, b) =>
       -- lossily encodable code points: the sub-codec cannot predict the bytes — correspondence skip
-      let m := if lossy b then " ".intercalate (i.drop 1) else modelOut b
-      ((), m, oracle b i)
+      let m := if lossy b then " ".intercalate (i.drop 1) else modelOut e b
+      ((), m, oracle e b i)
     | none => ((), "bad-case", "FAIL bad-case")
 
 end Driver.Asset
